@@ -94,7 +94,9 @@ func (a *kAggregate) Next(ctx context.Context) ([]model.StepVector, error) {
 	for i := range a.params {
 		a.params[i] = math.NaN()
 		if i < len(args) {
-			a.params[i] = args[i].Samples[0]
+			if len(args[i].Samples) > 0 {
+				a.params[i] = args[i].Samples[0]
+			}
 			a.paramOp.GetPool().PutStepVector(args[i])
 		}
 	}
@@ -102,6 +104,12 @@ func (a *kAggregate) Next(ctx context.Context) ([]model.StepVector, error) {
 
 	if len(args) < len(in) {
 		return nil, errors.New("scalar argument not found")
+	}
+	for i := range in {
+		// Same check as Prometheus: the parameter must be convertible to int64.
+		if !(a.params[i] <= math.MaxInt64 && a.params[i] >= math.MinInt64) {
+			return nil, errors.Newf("Scalar value %v overflows int64", a.params[i])
+		}
 	}
 
 	a.once.Do(func() { err = a.init(ctx) })
@@ -111,7 +119,12 @@ func (a *kAggregate) Next(ctx context.Context) ([]model.StepVector, error) {
 
 	result := a.vectorPool.GetVectorBatch()
 	for i, vector := range in {
-		a.aggregate(vector.T, &result, int(a.params[i]), vector.SampleIDs, vector.Samples)
+		k := int(a.params[i])
+		if a.params[i] > float64(len(a.series)) {
+			// Nothing more than all input series can be selected.
+			k = len(a.series)
+		}
+		a.aggregate(vector.T, &result, k, vector.SampleIDs, vector.Samples)
 		a.next.GetPool().PutStepVector(vector)
 	}
 
@@ -162,6 +175,13 @@ func (a *kAggregate) init(ctx context.Context) error {
 }
 
 func (a *kAggregate) aggregate(t int64, result *[]model.StepVector, k int, SampleIDs []uint64, samples []float64) {
+	// Every step yields exactly one vector which holds the samples of all groups.
+	s := a.vectorPool.GetStepVector(t)
+	if k < 1 {
+		*result = append(*result, s)
+		return
+	}
+
 	for i, sId := range SampleIDs {
 		h := a.inputToHeap[sId]
 		if h.Len() < k || h.compare(h.entries[0].total, samples[i]) || math.IsNaN(h.entries[0].total) {
@@ -180,7 +200,6 @@ func (a *kAggregate) aggregate(t int64, result *[]model.StepVector, k int, Sampl
 	}
 
 	for _, h := range a.heaps {
-		s := a.vectorPool.GetStepVector(t)
 		// The heap keeps the lowest value on top, so reverse it.
 		if len(h.entries) > 1 {
 			sort.Sort(sort.Reverse(h))
@@ -190,9 +209,9 @@ func (a *kAggregate) aggregate(t int64, result *[]model.StepVector, k int, Sampl
 			s.SampleIDs = append(s.SampleIDs, e.sId)
 			s.Samples = append(s.Samples, e.total)
 		}
-		*result = append(*result, s)
 		h.entries = h.entries[:0]
 	}
+	*result = append(*result, s)
 }
 
 type entry struct {
